@@ -316,6 +316,27 @@ pub fn run(ctx: &Ctx) {
     }
     ctx.enumerate("tall_root_large_levels", tall.len() as u64, false, |i| tall[i as usize].clone(), check_aux);
 
+    // zeroed buffers around every layout threshold of an H10 root (levels 10, 8, 6, 4, 2)
+    let mut thr: Vec<AuxCase> = Vec::new();
+    for h in [HashId::Sha256_128, HashId::Shake256_192] {
+        let n = h.n();
+        let mut acc = 4 + n;
+        let mut points = vec![acc];
+        for lvl in [10u32, 8, 6, 4, 2] {
+            acc += n << lvl;
+            points.push(acc);
+            points.push(4 + n + (n << lvl));
+        }
+        for p in points {
+            for d in [-2i64, -1, 0, 1] {
+                let len = (p as i64 + d).max(0) as u32;
+                thr.push(AuxCase { hash: h, levels: vec![(2, 10)], seed: 3, spec: AuxSpec::Zero(len), op: AuxOp::Keygen });
+                thr.push(AuxCase { hash: h, levels: vec![(2, 10)], seed: 3, spec: AuxSpec::Valid(len), op: AuxOp::Sign((len as u64 * 7) % 1024) });
+            }
+        }
+    }
+    ctx.enumerate("h10_layout_thresholds", thr.len() as u64, false, |i| thr[i as usize].clone(), check_aux);
+
     // exhaustive sub-domains
     let hashes: Vec<HashId> = if ctx.quick() { vec![HashId::Sha256_128, HashId::Shake256_256] } else { ALL_HASHES.to_vec() };
     let mut items: Vec<AuxCase> = Vec::new();
